@@ -27,8 +27,8 @@ LEVELS = ["vector", "matrix-pure", "matrix-mixed"]
 
 def superpose(rs, t):
     """put the target into a generic (complex) superposition, exactly"""
-    if t == 1:
-        return {"kind": "op", "targets": [1], "entry": "state", "gate": "U3", "params": {"phi": 0.7, "theta": 1.1, "omega": 0.4}}
+    if t in (1, 3):
+        return {"kind": "op", "targets": [t], "entry": "state", "gate": "U3", "params": {"phi": 0.7 + 0.3 * t, "theta": 1.1 - 0.2 * t, "omega": 0.4}}
     if t == 4:
         return {"kind": "op", "targets": [4], "entry": "state", "gate": "CustomCustom", "U": mj(rand_unitary(rs, 3))}
     return {"kind": "op", "targets": [t], "entry": "state", "gate": "FockCustom", "U": mj(rand_unitary(rs, DIM[t]))}
@@ -154,7 +154,100 @@ def allowed(call, en, t, loc, level):
     return True
 
 
+PAIR_LOCS = ["own-own", "env", "ps-same", "ps-same-rev", "ps-diff", "ps-own"]
+
+
+def prepare_pair(rs, a, b, loc, level):
+    """steps that bring the ordered pair (a, b) into a joint storage configuration"""
+    steps = [superpose(rs, a), superpose(rs, b)]
+    free = [x for x in (0, 1, 2, 3, 4) if x not in (a, b)]
+    same_env = {a, b} == {0, 1}
+    if loc == "env":
+        # at least one of them inside the combined envelope e0 (stored polarization first)
+        if not ({a, b} & {0, 1}):
+            return None
+        steps.append({"kind": "struct", "what": "env_combine", "env": 0})
+        steps.append({"kind": "kraus", "targets": [0, 1], "entry": "env", "ops": [mj(rand_unitary(rs, 6))]})
+        steps.append({"kind": "struct", "what": "env_reorder", "env": 0, "targets": [1, 0]})
+    elif loc in ("ps-same", "ps-same-rev"):
+        pair = [a, b] if loc == "ps-same" else [b, a]
+        steps.append({"kind": "struct", "what": "ce_combine", "h": 0, "targets": pair + free[:1]})
+        steps.append({"kind": "struct", "what": "ce_reorder", "h": 0, "targets": [free[0]] + pair})
+    elif loc == "ps-diff":
+        steps.append({"kind": "struct", "what": "ce_combine", "h": 0, "targets": [free[0], a]})
+        steps.append({"kind": "struct", "what": "ce_combine", "h": 0, "targets": [b, free[1]]})
+        steps.append({"kind": "kraus", "targets": [free[0], a], "entry": "ce", "h": 0, "ops": [mj(rand_unitary(rs, DIM[free[0]] * DIM[a]))]})
+    elif loc == "ps-own":
+        steps.append({"kind": "struct", "what": "ce_combine", "h": 0, "targets": [free[0], a]})
+        steps.append({"kind": "kraus", "targets": [free[0], a], "entry": "ce", "h": 0, "ops": [mj(rand_unitary(rs, DIM[free[0]] * DIM[a]))]})
+    if level == "matrix-pure":
+        steps.insert(0, {"kind": "struct", "what": "set_contraction", "on": False})
+        for t in (a, b):
+            en = "ce" if loc.startswith("ps") and not (loc == "ps-own" and t == b) else "env" if (loc == "env" and t in (0, 1)) else "state"
+            st = {"kind": "struct", "what": "expand", "entry": en, "targets": [t]}
+            if en == "ce":
+                st["h"] = 0
+            steps.append(st)
+    elif level == "matrix-mixed":
+        steps.append({"kind": "kraus", "targets": [a], "entry": "state", "ops": [mj(K) for K in rand_kraus(rs, DIM[a], 2)]})
+    return steps
+
+
+def pair_calls(rs, prop, a, b, loc):
+    d = DIM[a] * DIM[b]
+    out = []
+    both_pol = a in (1, 3) and b in (1, 3)
+    both_fock = a in (0, 2) and b in (0, 2)
+    if prop in ("C03", "C20", "C13") and both_pol:
+        for g in ("CX", "CZ", "SWAP"):
+            out.append(({"kind": "op", "targets": [a, b], "gate": g}, ["ce"]))
+    if prop in ("C03", "C11") and both_fock:
+        out.append(({"kind": "op", "targets": [a, b], "gate": "BS", "params": {"eta": 0.7}}, ["ce"]))
+    if prop == "C03" and not (a in (0, 2) or b in (0, 2)):
+        fa = rand_unitary(rs, DIM[a])
+        fb = rs.randn(DIM[b], DIM[b]) + 1j * rs.randn(DIM[b], DIM[b])
+        names = {1: "Polarization", 3: "Polarization", 4: "CustomState"}
+        out.append(({"kind": "op", "targets": [a, b], "gate": "Expr", "factors": [mj(fa), mj(fb)], "types": [names[a], names[b]], "form": "flat"}, ["ce"]))
+    ens = ["ce"] + (["env"] if {a, b} == {0, 1} else [])
+    if prop == "C06":
+        out.append(({"kind": "kraus", "targets": [a, b], "ops": [mj(K) for K in rand_kraus(rs, d, 2)]}, ens))
+    if prop == "C09" and d <= 9:
+        for des in (True, False):
+            out.append(({"kind": "povm", "targets": [a, b], "ops": [mj(K) for K in rand_kraus(rs, d, 2)], "destructive": des}, ens))
+    if prop == "C02" and loc.startswith("ps") and loc != "ps-own":
+        out.append(({"kind": "trace_out", "targets": [a, b]}, ["ce"]))
+    if prop in ("C04", "C05", "C18") and loc != "env":
+        for sep, des in ((True, True), (True, False)):
+            out.append(({"kind": "measure", "targets": [a, b], "sep": sep, "destructive": des}, ["ce"]))
+    return out
+
+
+def pair_programs(prop):
+    rs = np.random.RandomState(2000 + sum(map(ord, prop)))
+    progs = []
+    for (a, b) in ((0, 1), (1, 0), (1, 3), (3, 1), (1, 4), (0, 2), (2, 0), (4, 1)):
+        for loc in PAIR_LOCS:
+            for level in LEVELS:
+                prep = prepare_pair(rs, a, b, loc, level)
+                if prep is None:
+                    continue
+                for call, ens in pair_calls(rs, prop, a, b, loc):
+                    if call["kind"] == "op" and call.get("gate") == "BS" and level == "vector" and loc != "own-own":
+                        continue  # Fock level estimate of an entangled vector state (K-C01-guard)
+                    if call["kind"] == "trace_out" and level == "vector":
+                        continue  # K-C02
+                    for en in ens:
+                        progs.append({"seed": 7, "contraction": True, "focus": prop,
+                                      "cell": f"{call['kind']}:{call.get('gate', '')}|{en}|t{a}+{b}|{loc}|{level}",
+                                      "setup": SETUP, "steps": prep + [with_entry(call, en)]})
+    return progs
+
+
 def cell_programs(prop, seed=0):
+    return single_programs(prop) + pair_programs(prop)
+
+
+def single_programs(prop, seed=0):
     rs = np.random.RandomState(1000 + sum(map(ord, prop)))
     progs = []
     for t in (0, 1, 4):
@@ -176,5 +269,5 @@ def cell_programs(prop, seed=0):
 if __name__ == "__main__":
     import sys, collections
     for p in sys.argv[1:]:
-        ps = cell_programs(p)
+        ps = pair_programs(p)
         print(p, len(ps), collections.Counter(x["cell"].split("|")[0] for x in ps))
